@@ -23,6 +23,15 @@ open EinoV.Engine EinoV.Gen
 theorem facts_match : Pref.ofStrings FactsC04.packerPref = Expected.C04.packerPref ∧
     FactsC04.adaptorNamesMatch = true := by decide
 
+/-- Source fact tie for the stream-mode zero: `emptyStreamFromGeneric` builds a stream of exactly one
+    chunk carrying the zero value (`Pipe(1); Send(zero); Close`), and `dagChannel.get` hands it out in
+    stream mode where value mode hands out the zero value — the `zero := [z]` of `opsS`, `lazyOps`,
+    `listOps`, `streamOps`. -/
+theorem zero_stream_facts : FactsC04.emptyStreamIsOneZeroChunk = true ∧
+    FactsC04.dagGetHandsOutEmptyStream = true ∧
+    (∀ z : Nat, (opsS z).zero = [z] ∧ (lazyOps z).zero = { chunks := [z] } ∧ (listOps z).zero = [z]) := by
+  refine ⟨by decide, by decide, fun z => ⟨rfl, rfl, rfl⟩⟩
+
 /-- **packer_total_and_agree.** Whichever non-empty subset of the four paradigms a component
     natively implements (all 15 subsets), however it splits its output into chunks
     (`chunk`, any function with `concat (chunk v) = v`), the four forms produced by
@@ -296,8 +305,8 @@ theorem error_item_reported {V} (co : ChunkOps V) (s : LStream V) (e : Err) (he 
 /-- **merge_keeps_error_items.** The fan-in of streams (`MergeStreamReaders`) neither drops nor
     invents error items: the merged stream carries one iff some source does, and the one it
     carries is a source's. (Chain `Parallel`, a node or END with several data predecessors.) -/
-theorem merge_keeps_error_items {V} (ls : List (LStream V)) :
-    ∃ m, lazyOps.merge ls = some m ∧
+theorem merge_keeps_error_items {V} (z : V) (ls : List (LStream V)) :
+    ∃ m, (lazyOps z).merge ls = some m ∧
       (∀ s ∈ ls, ∀ e, s.err = some e → ∃ e', m.err = some e') ∧
       (∀ e', m.err = some e' → ∃ s ∈ ls, s.err = some e') ∧
       ((∀ s ∈ ls, s.err = none) → m.err = none ∧ m.chunks = (ls.map (·.chunks)).flatten) := by
@@ -318,11 +327,11 @@ theorem forwarding_keeps_error_items {V} (f : List V → List V) (s : LStream V)
     breaks after `k` chunks, merged with any other streams at a fan-in and converted on the way,
     fails whatever drains the merged stream: the consumer node in stream mode, and the caller of
     Stream / Collect / Transform when the fan-in is END — as Invoke fails when the producer runs. -/
-theorem broken_producer_reported {V} (co : ChunkOps V) (t : List V → Except Err (List V)) (k : Nat) (e : Err)
+theorem broken_producer_reported {V} (z : V) (co : ChunkOps V) (t : List V → Except Err (List V)) (k : Nat) (e : Err)
     (x o : LStream V) (ho : lazyMidFail t k e x = .ok o) (conv : List V → List V)
     (ls : List (LStream V)) (hmem : o.mapChunks conv ∈ ls)
     (t' : List V → Except Err (List V)) :
-    ∃ m e', lazyOps.merge ls = some m ∧ (∃ s ∈ ls, s.err = some e') ∧
+    ∃ m e', (lazyOps z).merge ls = some m ∧ (∃ s ∈ ls, s.err = some e') ∧
       lazyNode t' m = .error e' ∧ lazyConcat co m = .error e' := by
   have hoe : o.err = some e := by
     unfold lazyMidFail at ho
@@ -334,7 +343,7 @@ theorem broken_producer_reported {V} (co : ChunkOps V) (t : List V → Except Er
       | ok ys =>
         simp [hx, ht, bind, Except.bind, pure, Except.pure] at ho
         rw [← ho]
-  obtain ⟨m, hm, h1, h2, _⟩ := merge_keeps_error_items ls
+  obtain ⟨m, hm, h1, h2, _⟩ := merge_keeps_error_items z ls
   obtain ⟨e', he'⟩ := h1 _ hmem e hoe
   refine ⟨m, e', hm, h2 e' he', ?_, ?_⟩
   · exact (error_item_reported co m e' he' t' 0 e (fun _ => .ok [])).1
@@ -384,9 +393,9 @@ theorem lazy_branch_ok {V} (ends : List Key) (noData : Bool) (c : List V → Exc
 theorem lazy_streams_conservative {V} (tb : Branch (LStream V) → Branch (List V)) (tn : Node (LStream V) → Node (List V))
     (htb : ∀ b, BranchOK LStream.chunks (fun s : LStream V => s.err = none) b (tb b))
     (htn : ∀ n, NodeOK LStream.chunks (fun s : LStream V => s.err = none) tb n (tn n))
-    (r : Runner (LStream V)) (x : LStream V) (hx : x.err = none) :
-    runS listOps (r.mapNodes tn) Sched.id x.chunks = (runS lazyOps r Sched.id x).mapO LStream.chunks :=
-  engine_hom LStream.chunks (fun s => s.err = none) tb tn htb htn lazyOps listOps lazy_ops_ok r (fun _ => rfl)
+    (z : V) (r : Runner (LStream V)) (x : LStream V) (hx : x.err = none) :
+    runS (listOps z) (r.mapNodes tn) Sched.id x.chunks = (runS (lazyOps z) r Sched.id x).mapO LStream.chunks :=
+  engine_hom LStream.chunks (fun s => s.err = none) tb tn htb htn (lazyOps z) (listOps z) (lazy_ops_ok z) r (fun _ => rfl)
     Sched.id Sched.id (sched_id_hom LStream.chunks).1 (sched_id_hom (B := List V) LStream.chunks).2 x hx
 
 /-! non-vacuity: a chunker that really splits, on a concrete value type -/
@@ -395,7 +404,7 @@ example : concat ({ concatItems := fun l => .ok l.sum, emptyErr := { cls := .noT
 /-! non-vacuity: a producer that breaks after one chunk, merged with a healthy stream, fails the
     caller's concatenation although chunks were delivered -/
 example : (lazyMidFail (V := Nat) (fun xs => .ok xs) 1 { cls := .user 7 } (.ofList [1, 2])).toOption.bind
-      (fun o => (lazyOps.merge [LStream.ofList [5], o]).map
+      (fun o => ((lazyOps 0).merge [LStream.ofList [5], o]).map
         (lazyConcat { concatItems := fun l => .ok l.sum, emptyErr := { cls := .noTasks } }))
     = some (.error { cls := .user 7 }) := rfl
 
